@@ -191,7 +191,7 @@ static void visit_expect_clean(int hidx) {
   r.res = mi_heap_visit_blocks(hps[hidx].hp, true, visitor, &v);
   r.nvisited = v.count; r.h = hps[hidx].id;
   log_ret_begin("visit", &r);
-  vf_logf(",\"blocks\":["); vf_log_raw(vbuf, vlen); vf_logf("],\"areas\":["); vf_log_raw(abuf, alen); vf_logf("]");
+  vf_logf(",\"after\":%ld,\"nareas\":%ld,\"blocks\":[", v.after, v.areas); vf_log_raw(vbuf, vlen); vf_logf("],\"areas\":["); vf_log_raw(abuf, alen); vf_logf("]");
   log_obs(-1, -1, 0); log_ret_end();
 }
 
@@ -560,7 +560,7 @@ static void visit_abandoned(int stopat) {
   vf_in_call = 0;
   r.nvisited = v.count;
   log_ret_begin("visit_abandoned", &r);
-  vf_logf(",\"blocks\":["); vf_log_raw(vbuf, vlen); vf_logf("],\"areas\":["); vf_log_raw(abuf, alen); vf_logf("]");
+  vf_logf(",\"after\":%ld,\"nareas\":%ld,\"blocks\":[", v.after, v.areas); vf_log_raw(vbuf, vlen); vf_logf("],\"areas\":["); vf_log_raw(abuf, alen); vf_logf("]");
   log_obs(-1, -1, 0); log_ret_end();
 }
 static void* leaver_main(void* arg) {
@@ -591,6 +591,7 @@ static void prog_abvisit(int nthreads) {
   vf_wait_all();
   visit_abandoned(0);                                   /* exactly the blocks left behind */
   visit_abandoned(1 + (int)vf_randn(6));                /* the visitor stops the walk */
+  visit_abandoned(-(1 + (int)vf_randn(3)));             /* ... at an area announcement */
   visit_abandoned(0);                                   /* and a later walk is complete again */
   /* free half of what was left behind (into the abandoned segments), collect, walk again */
   int k = 0; for (int s = 0; s < MAXSLOTS; s++) if (slots[s].p && slots[s].heap != hps[0].id && (k++ % 2) == 0) op_free_slot(s, FR_free);
